@@ -212,6 +212,12 @@ func (sp *ServiceProvider) Metadata() *EntityDescriptor {
 				},
 			},
 		}
+		// The encryption methods advertised above (and the only key transport xmlenc can
+		// decrypt) are RSA based, so a certificate with any other kind of key is not
+		// an encryption key: an IDP could only fail trying to encrypt to it.
+		if _, isRSA := sp.Certificate.PublicKey.(*rsa.PublicKey); !isRSA {
+			keyDescriptors = nil
+		}
 		if len(sp.SignatureMethod) > 0 {
 			keyDescriptors = append(keyDescriptors, KeyDescriptor{
 				Use: "signing",
